@@ -212,3 +212,23 @@ class verneed_get_version:
                "result is not None or forall(lambda i, j: j >= gen_len($seq0[i][1]) or gen_elem($seq0[i][1], j).entry.vna_other != index,"
                " 0, len($seq0), 0, 65536)"]
     may_raise = ["ELFError", "OverflowError"]
+
+
+ALLZ = ("forall(lambda i, j: j >= gen_len($seq0[i][1]) or gen_elem($seq0[i][1], j).entry.vna_other == 0, 0, %s, 0, 65536)")
+
+
+@contract("elftools/elf/gnuversions.py", "GNUVerNeedSection.has_indexes", props=["C15"])
+class verneed_has_indexes:
+    """(first call: nothing memoised) False only if every auxiliary of every requirement has vna_other == 0; the
+    answer is memoised"""
+    params = dict(self=VerSecT('vn'))
+    requires = ["self.structs.elfclass == self.elffile.elfclass"]
+    returns = Bool
+    modifies = ["self._has_indexes"]
+    loops = {0: dict(invariant=["self._has_indexes == True or self._has_indexes == False",
+                                "self._has_indexes == True or " + ALLZ % "$k"]),
+             1: dict(ghost_entry={"$h0": "self._has_indexes"},
+                     invariant=["forall(lambda j: gen_elem(vernaux_iter, j).entry.vna_other == 0, 0, $k)", "self._has_indexes == $h0"])}
+    ensures = ["result == True or result == False", "self._has_indexes == result",
+               "result == True or " + ALLZ % "len($seq0)"]
+    may_raise = ["ELFError", "OverflowError"]
